@@ -168,7 +168,57 @@ def rule_run(spec):
     return out
 
 
-OPS = {"lex": lambda r: lex(r["text"], r.get("name", "a.c")),
+def segments(text, name="a.c", debug=0, timeout=10):
+    """whole pipeline with an observing wrapper around Context.pop_tokens (test-side, no
+    source change): the list of (tokens left before, stop) of every call"""
+    from norminette.file import File
+    from norminette.lexer import Lexer
+    from norminette.context import Context
+    from norminette.exceptions import CParsingError
+    f = File(name, text)
+    out = {"n0": None, "pops": [], "fatal": None, "exc": None, "status": None, "scope_end": None, "segs": []}
+    orig = Context.pop_tokens
+
+    def wrapper(self, stop):
+        toks = self.tokens
+        out["pops"].append((len(toks), stop))
+        seg = toks[:stop]
+        if seg:
+            first, last = seg[0], seg[-1]
+            out["segs"].append((first.pos[0], first.pos[1], last.type, last.pos[0],
+                                self.history[-1].name if self.history else None))
+        return orig(self, stop)
+    Context.pop_tokens = wrapper
+    buf = io.StringIO()
+    try:
+        with contextlib.redirect_stdout(buf):
+            def go():
+                toks = list(Lexer(f))
+                out["n0"] = len(toks)
+                ctx = Context(f, toks, debug)
+                try:
+                    registry().run(ctx)
+                finally:
+                    out["scope_end"] = ctx.scope.name if ctx.scope is not None else None
+            with_timeout(go, timeout)
+    except CParsingError as e:
+        out["fatal"] = str(e.msg)
+    except Timeout:
+        out["exc"] = "TIMEOUT"
+    except RecursionError:
+        out["exc"] = "RecursionError"
+    except Exception as e:
+        out["exc"] = type(e).__name__
+    finally:
+        Context.pop_tokens = orig
+    out["stdout"] = buf.getvalue()[-500:]
+    out["status"] = f.errors.status
+    out["errors"] = [e.name for e in f.errors._inner]
+    return out
+
+
+OPS = {"segments": lambda r: segments(r["text"], r.get("name", "a.c"), r.get("debug", 0)),
+       "lex": lambda r: lex(r["text"], r.get("name", "a.c")),
        "pipeline": lambda r: pipeline(r["text"], r.get("name", "a.c"), r.get("debug", 0), r.get("R"),
                                       r.get("timeout", 10)),
        "rule": rule_run}
